@@ -55,6 +55,24 @@ def container(series, ndim, kind):
             for s in series]
     if kind == "list":
         return arrs
+    if kind == "list_views":
+        # the same numbers as views into wider / longer recordings: the first channels of a wider array, every second
+        # sample of a longer one (inner stride one item, but not contiguous), or every second item of a 1-D buffer
+        out = []
+        for k_, a in enumerate(arrs):
+            if a.ndim == 1:
+                big = np.full(2 * len(a), 91.0)
+                big[::2] = a
+                out.append(big[::2])
+            elif k_ % 2 == 0:
+                wide = np.full((a.shape[0], a.shape[1] + 2), -37.0)
+                wide[:, :a.shape[1]] = a
+                out.append(wide[:, :a.shape[1]])
+            else:
+                long_ = np.full((2 * a.shape[0], a.shape[1]), 53.0)
+                long_[::2] = a
+                out.append(long_[::2])
+        return out
     if kind == "matrix":
         return np.array(arrs)
     raise ValueError(kind)
@@ -123,7 +141,7 @@ def run(ctx):
         # ---- values / order with tagged series
         ndim = (1, 1, 2, 3)[k % 4]
         equal_len = (k % 3 != 0)
-        kind = "matrix" if (equal_len and k % 2) else "list"
+        kind = "matrix" if (equal_len and k % 2) else ("list", "list_views")[k % 5 == 0]
         series = make_series(rng, n, ndim, equal_len, tagged=True)
         data = container(series, ndim, kind)
         if ndim == 1:
@@ -136,6 +154,8 @@ def run(ctx):
             res.evaluations += 1
             extra = {} if ndim == 1 else {"ndim": ndim}
             try:
+                ctx.crumb(call="%s.distance_matrix(compact=True, parallel=False)" % mod.__name__, engine=eng, block=b,
+                          ndim=ndim, container=kind, series=series)
                 got = list(mod.distance_matrix(data, block=barg, compact=True, parallel=False, **extra, **kw))
             except BaseException as e:
                 if isinstance(e, (KeyboardInterrupt, SystemExit)):
@@ -198,7 +218,7 @@ def random_part(ctx, res, lib):
         ndim = rng.choice([1, 1, 2])
         equal_len = rng.random() < 0.5
         series = make_series(rng, n, ndim, equal_len, tagged=False)
-        kind = "matrix" if (equal_len and rng.random() < 0.5) else "list"
+        kind = "matrix" if (equal_len and rng.random() < 0.5) else rng.choice(["list", "list_views"])
         data = container(series, ndim, kind)
         settings = {"window": rng.choice([None, 1, 2, 3]), "penalty": rng.choice([None, 1]),
                     "psi": rng.choice([None, 1, (1, 0, 0, 1), (0, 1, 1, 0), (2, 0, 0, 0), (0, 0, 0, 2)]), "inner": "sq"}
@@ -226,6 +246,8 @@ def random_part(ctx, res, lib):
         got = {}
         for eng, use_c in (("python", False), ("c", True)):
             try:
+                ctx.crumb(call="%s.distance_matrix(compact=True, parallel=False)" % mod.__name__, engine=eng, block=b,
+                          ndim=ndim, container=kind, series=series, settings=settings)
                 got[eng] = list(mod.distance_matrix(data, block=block_arg(b), compact=True, parallel=False,
                                                     use_c=use_c, **extra, **kw))
             except BaseException as e:
